@@ -23,8 +23,8 @@ func vhLastCounter(w *vhWriter) uint64 {
 
 // C13: message counters and request de-duplication of one Sender.
 func VH_c13_sender() {
-	scen := []string{"request-history", "eviction", "notify-retrieval", "notify-retrieval-interleaved", "counters-increase"}
-	cs := verifrt.ShardChoice("case", 10+4)
+	scen := []string{"request-history", "eviction", "notify-retrieval", "notify-retrieval-interleaved", "counters-increase", "eviction-after-response", "eviction-with-notifications"}
+	cs := verifrt.ShardChoice("case", 10+6)
 	si, first := 0, cs
 	if cs >= 10 {
 		si, first = cs-9, -1
@@ -118,6 +118,33 @@ func VH_c13_sender() {
 		before := len(wr.msgs)
 		_, _ = s.Request(model.CmdClassifierTypeRead, src, dsts[0], false, []model.CmdType{vhReadCmd(22)})
 		verifrt.Assert("recent-unanswered-request-still-withheld", len(wr.msgs) == before)
+		_, _ = s.Request(model.CmdClassifierTypeRead, src, dsts[0], false, []model.CmdType{vhReadCmd(0)})
+		verifrt.Assert("forgotten-request-is-sent-again", len(wr.msgs) == before+1)
+
+	case "eviction-after-response", "eviction-with-notifications":
+		// the cached counters are not contiguous: an earlier (not the oldest) request was answered, or
+		// notifications consumed counters in between
+		s.msgNum = verifrt.U64("msgNum")
+		verifrt.Assume(s.msgNum < 1<<62)
+		var ctrs []model.MsgCounterType
+		for i := 0; i < 21; i++ {
+			if scen[si] == "eviction-with-notifications" && i%5 == 1 {
+				_, _ = s.Notify(src, dsts[0], vhReadCmd(uint(500+i)))
+			}
+			got, _ := s.Request(model.CmdClassifierTypeRead, src, dsts[0], false, []model.CmdType{vhReadCmd(uint(i))})
+			ctrs = append(ctrs, *got)
+		}
+		if scen[si] == "eviction-after-response" {
+			s.ProcessResponseForMsgCounterReference(&ctrs[verifrt.Choice("answered", 3)+1])
+		}
+		bounded := true
+		for i := 21; i < 27; i++ {
+			_, _ = s.Request(model.CmdClassifierTypeRead, src, dsts[0], false, []model.CmdType{vhReadCmd(uint(i))})
+			bounded = bounded && len(s.reqMsgCache) <= 21
+		}
+		verifrt.Reach("evicted")
+		verifrt.Assert("memory-of-unanswered-requests-stays-bounded", bounded)
+		before := len(wr.msgs)
 		_, _ = s.Request(model.CmdClassifierTypeRead, src, dsts[0], false, []model.CmdType{vhReadCmd(0)})
 		verifrt.Assert("forgotten-request-is-sent-again", len(wr.msgs) == before+1)
 
